@@ -405,3 +405,22 @@ CONTRACTS += [
                   'e0.start == 0 and e0.length == 4 and e0.text == ent + "后"')],
                 'layout: entity directly followed by the modifier character 后'),
 ]
+
+# ---- C01 (Chinese units): "三斤半": the 半 that directly follows a unit entity is absorbed, text and span together
+ZUC = NWU + 'number_with_unit/chinese/extractors.py::ChineseNumberWithUnitExtractorConfiguration'
+_SPAN_ER = lambda: Rec(RT + 'extractor.py::ExtractResult', dict(start=Int(0), length=Int(1), text=Str(), type=Str(), data=Const(None),
+                                                               meta_data=Const(None)))
+CONTRACTS += [
+    Contract('c01.chinese.expand_half_suffix', ZUC + '.expand_half_suffix', ['C01'], unroll=4,
+             params=dict(self=Rec(ZUC, dict(_half_unit_regex=Const('half_rx'))), source=Str(), e0=_SPAN_ER(), n0=_SPAN_ER(),
+                         result=Expr('[e0]'), numbers=Expr('[n0]')),
+             requires=['e0.start + e0.length <= len(source)', 'e0.text == source[e0.start:e0.start + e0.length]',
+                       'n0.start + n0.length <= len(source)', 'n0.text == source[n0.start:n0.start + n0.length]'],
+             regex_env={'half_rx': {'mode': 'any'}},
+             ensures=[('text-is-still-the-slice-of-the-query', 'e0.text == source[e0.start:e0.start + e0.length]'),
+                      ('span-stays-inside-and-keeps-its-start',
+                       'e0.start == old(e0).start and e0.start + e0.length <= len(source) and e0.length >= old(e0).length'),
+                      ('grows-only-by-an-adjacent-number',
+                       'e0.length == old(e0).length or (n0.start == old(e0).start + old(e0).length and e0.length == old(e0).length + n0.length)')],
+             note='one unit entity and one number entity with arbitrary spans; whether the number is a "half" word is an environment value'),
+]
